@@ -14,27 +14,22 @@ Definition hout_eqb (mask : N) (m i : hout) : bool :=
   | _, _ => false
   end.
 
+Definition himpl_peers_of (o : hout) : list N :=
+  match o with HOAnnounce _ _ p => p | _ => [] end.
+
 Definition hcheck_op (mask : N) (cfg : hcfg) (s : hstate) (op : hop) (impl : hout) : option hstate :=
-  match op with
-  | HAnnounce v6 hash key stopped bleft until want _ _ =>
-      let n := S (length (pm_entries (tm_get hash (hfam s v6)))) in
-      let cands := seq 0 n in
-      match h_step cfg s op with
-      | Ok (s', out) =>
-          if hout_eqb mask out impl then Some s'
-          else if existsb (fun a => existsb (fun b =>
-                    match h_step cfg s (HAnnounce v6 hash key stopped bleft until want a b) with
-                    | Ok (_, out') => hout_eqb mask out' impl
-                    | Panic => false
-                    end) cands) cands
-               then Some s' else None
-      | Panic => None
-      end
-  | _ =>
-      match h_step cfg s op with
-      | Ok (s', out) => if hout_eqb mask out impl then Some s' else None
-      | Panic => None
-      end
+  match h_step cfg s op with
+  | Ok (s', out) =>
+      if hout_eqb mask out impl then Some s'
+      else
+        match op with
+        | HAnnounce v6 hash key _ _ _ want _ _ =>
+            if hout_eqb (N.land mask 29) out impl
+               && peers_possible (limit_http want (hc_max_peers cfg)) (tm_get hash (hfam s v6)) key (himpl_peers_of impl)
+            then Some s' else None
+        | _ => None
+        end
+  | Panic => None
   end.
 
 Definition hany_large (s : hstate) : bool :=
